@@ -251,6 +251,8 @@ def build(spec):
         return sh[spec[1]][1]('v')
     if kind == 'pair':
         return sh[spec[1]][1](sh[spec[2]][1]('v'))
+    if kind == 'triple':
+        return sh[spec[1]][1](sh[spec[2]][1](sh[spec[3]][1]('v')))
     if kind == 'under':
         return [sh[spec[1]][1]('v'), {'k': sh[spec[2]][1]('w')}, (sh[spec[2]][1]('u'),)]
     if kind == 'share':
@@ -418,6 +420,8 @@ def plan(tier, seed):
     for i in holders:
         jobs.append(('share', i, q))
     jobs += [('cycle', i) for i in holders]
+    if not q:
+        jobs += [('triples', i, j) for i in holders for j in holders]
     return jobs
 
 
@@ -442,6 +446,11 @@ def run_job(job, T):
                     continue
                 check_graph(T, 'sharing', ('share', k, i, j), OPTS[:2] if q else OPTS)
         T.sample('sharing', {'holder': shapes()[i][0], 'inner': shapes()[j][0]})
+    elif kind == 'triples':
+        _, i, j = job
+        for k in range(n):
+            check_graph(T, 'triples', ('triple', i, j, k), OPTS[:1])
+        T.sample('triples', {'outer': shapes()[i][0], 'middle': shapes()[j][0], 'inner': shapes()[k][0]})
     elif kind == 'cycle':
         for k in range(5):
             check_graph(T, 'cycles', ('cycle', k, job[1]), OPTS[:3])
